@@ -594,3 +594,105 @@ Proof.
   apply andb_true_iff in HR as [H1 H2]. apply Nat.eqb_eq in H1, H2.
   rewrite !count_app. split; lia.
 Qed.
+
+(* ------------------------------------------------------------------------------------------ *)
+(* the core election for n concurrent stop callbacks: hand-written invariant, all n, all        *)
+(* schedules                                                                                    *)
+
+Module Elect.
+Import TypeEraseElect.
+
+Definition b2n (b : bool) : nat := if b then 1 else 0.
+Definition cnt (l : list cpc) : nat := length (filter is_hold l).
+
+Lemma cnt_set_nth l i old x :
+  nth_error l i = Some old ->
+  cnt (set_nth i x l) + b2n (is_hold old) = cnt l + b2n (is_hold x).
+Proof.
+  revert i. induction l as [|y r IH]; intros i H.
+  - destruct i; discriminate.
+  - destruct i as [|i]; cbn in H.
+    + injection H as ->. unfold cnt. cbn. destruct (is_hold old), (is_hold x); cbn; lia.
+    + specialize (IH i H). unfold cnt in *. cbn. destruct (is_hold y); cbn; lia.
+Qed.
+
+Lemma filter_len {A} (f : A -> bool) l : length (filter f l) <= length l.
+Proof. induction l as [|y r IH]; cbn; [lia|]. destruct (f y); cbn; lia. Qed.
+
+Lemma forallb_fin_cnt l : forallb is_fin l = true -> cnt l = 0.
+Proof.
+  induction l as [|y r IH]; cbn; [reflexivity|]. intros H. apply andb_true_iff in H as [Hy Hr].
+  unfold cnt in *. cbn. destruct y; cbn in *; try discriminate. auto.
+Qed.
+
+Definition Inv (s : st) : Prop :=
+  let sd := b2n (src_done s) in
+  rc s + sd = 1 + holders s + bailed s /\
+  bailed s <= 1 /\ deliveries s <= 1 /\
+  (deliveries s = 0 -> bailed s = 0 /\ (sd = 1 -> 1 <= holders s)) /\
+  (deliveries s = 1 -> sd = 1 /\ (bailed s = 0 -> holders s = 0)).
+
+Lemma inv_init n : Inv (init n).
+Proof.
+  unfold Inv, holders, init. cbn.
+  assert (H : length (filter is_hold (repeat CIdle n)) = 0).
+  { induction n; cbn; auto. }
+  rewrite H. lia.
+Qed.
+
+Lemma inv_step s t s' evs : Inv s -> step t s = Some (s', evs) -> Inv s'.
+Proof.
+  intros HI Hs. unfold step in Hs.
+  destruct t as [|i].
+  - (* the source's completion *)
+    destruct (src_done s) eqn:Esd; [discriminate|].
+    unfold complete in Hs. injection Hs as <- _. unfold Inv, holders in *. cbn in *. rewrite Esd in HI. cbn in HI.
+    destruct (rc s =? 1) eqn:E1; [apply Nat.eqb_eq in E1|apply Nat.eqb_neq in E1]; lia.
+  - destruct (nth_error (cbs s) i) as [[| |]|] eqn:En; try discriminate.
+    + (* fetch_add *)
+      pose proof (cnt_set_nth (cbs s) i CIdle CFin En) as Hf.
+      pose proof (cnt_set_nth (cbs s) i CIdle CHold En) as Hh.
+      unfold cnt in Hf, Hh. cbn in Hf, Hh.
+      destruct (rc s =? 0) eqn:E0; [apply Nat.eqb_eq in E0|apply Nat.eqb_neq in E0];
+        injection Hs as <- _; unfold Inv, holders in *; cbn in *;
+        destruct (src_done s); cbn in *; lia.
+    + (* the callback's complete *)
+      pose proof (cnt_set_nth (cbs s) i CHold CFin En) as Hf. unfold cnt in Hf. cbn in Hf.
+      unfold complete in Hs. injection Hs as <- _. unfold Inv, holders in *. cbn in *.
+      destruct (rc s =? 1) eqn:E1; [apply Nat.eqb_eq in E1|apply Nat.eqb_neq in E1];
+        destruct (src_done s); cbn in *; lia.
+Qed.
+
+(* for every number n of callbacks and every schedule: the result is delivered at most once,
+   refCount_ stays within 0 .. n+1, and once the source's completion and every callback have
+   run it has been delivered exactly once *)
+Theorem elect_once n (sched : list nat) :
+  let s := fst (run step sched (init n, [])) in
+  deliveries s <= 1 /\ rc s <= n + 1 /\ (quiescent s = true -> deliveries s = 1).
+Proof.
+  cbv zeta.
+  assert (HI : Inv (fst (run step sched (init n, []))) /\
+               length (cbs (fst (run step sched (init n, [])))) = n).
+  { apply (run_invariant_state st nat ev step (fun s => Inv s /\ length (cbs s) = n)).
+    - intros s t s' evs [Hi Hl] Hs. split; [eapply inv_step; eauto|].
+      assert (Hsn : forall A i (x : A) l, length (set_nth i x l) = length l).
+      { intros A i x l. revert i. induction l; intros [|i]; cbn; auto. }
+      unfold step in Hs. destruct t as [|i].
+      + destruct (src_done s); [discriminate|]. unfold complete in Hs. injection Hs as <- _. exact Hl.
+      + destruct (nth_error (cbs s) i) as [[| |]|]; try discriminate.
+        * destruct (rc s =? 0); injection Hs as <- _; cbn; rewrite Hsn; exact Hl.
+        * unfold complete in Hs. injection Hs as <- _. cbn. rewrite Hsn. exact Hl.
+    - split; [apply inv_init|]. cbn. apply repeat_length. }
+  destruct HI as [HI Hl].
+  set (s := fst (run step sched (init n, []))) in *.
+  assert (Hh : holders s <= n).
+  { unfold holders. rewrite <- Hl. apply filter_len. }
+  unfold Inv in HI. cbn zeta in HI.
+  split; [lia|]. split.
+  - destruct (src_done s); cbn in HI; lia.
+  - intros Hq. unfold quiescent in Hq. apply andb_true_iff in Hq as [Hs Hf].
+    apply forallb_fin_cnt in Hf. unfold cnt in Hf. fold (holders s) in Hf.
+    rewrite Hs in HI. cbn in HI. lia.
+Qed.
+
+End Elect.
